@@ -1108,6 +1108,11 @@ def shard(ctx: runner.Ctx) -> None:
                 if ("s", text, k) not in seen:
                     seen.add(("s", text, k))
                     cases.append(("s", text, k))
+        # the domain of single characters is small: all the special ones, always
+        for ch in [chr(i) for i in range(0x20)] + _special_ascii + list("0aF?") + _latin + _bmp + _astral:
+            if ("c", ch, None) not in seen:
+                seen.add(("c", ch, None))
+                cases.append(("c", ch, None))
 
     first_seen = set()  # values already read by the targets that ignore the offset k
     for start in range(0, len(cases), batch_size):
